@@ -65,6 +65,9 @@ type c04MixedSet struct {
 	// Join: the template record goes into the template set the previous entry opened (when that was an
 	// announcement of the same kind, plain or options) instead of a set of its own
 	Join bool `json:"join,omitempty"`
+	// Junk: this many data sets of template ids the exporter never announced stand in front of this set (each is
+	// reported and skipped; however many there are, the sets behind them count as before)
+	Junk int `json:"junk,omitempty"`
 }
 
 type c04Case struct {
@@ -75,7 +78,7 @@ type c04Case struct {
 
 const c04Rule = "case = protocol (ipfix | nf9) + 2..6 (exporter address, template id) slots (IPv4 4-byte, IPv4-mapped, IPv6; ids shared across exporters; adversarial pairs that collide on the cache's " +
 	"full 32-bit FNV-1 hash, share a shard, or share a shard and have the same text when address and id are written without separator; found by searching ~1.5M keys) + 2..30 operations: announce (alone or with data in the same message), re-announce with a different definition " +
-	"(same record length with other elements, same elements with other field lengths, a fresh template, or fields of length zero: then data naming the id must yield nothing), field-less template records ([id,0] and [2,0], alone or with re-announcements behind them in the same set: a re-announced id has the new definition, an id the record does not concern is untouched, the named id decodes as before or yields nothing plus an error), drawn export times, data under the model's current template, data for a never-announced slot, peer Get (ipfix), and messages mixing data sets and (re-)announcements of several ids of one exporter in any order; " +
+	"(same record length with other elements, same elements with other field lengths, a fresh template, or fields of length zero: then data naming the id must yield nothing), field-less template records ([id,0] and [2,0], alone or with re-announcements behind them in the same set: a re-announced id has the new definition, an id the record does not concern is untouched, the named id decodes as before or yields nothing plus an error), drawn export times, data under the model's current template, data for a never-announced slot, peer Get (ipfix), and messages mixing data sets and (re-)announcements of several ids of one exporter in any order, in a quarter of them with 1..80 data sets of never-announced templates in front of some of the sets; " +
 	"invariant after every step = decode equals the reference expectation under the model's template for exactly that slot, unannounced slots give an 'unknown template' error and no records, peer Get returns the model's template or 'not available'; " +
 	"non-trivial = a re-announcement followed by data, or >= 2 exporters using one id with different definitions, or a colliding pair in use; distinct by hash"
 
@@ -203,6 +206,18 @@ func mapped4(a []byte) string {
 		return hex.EncodeToString(ip)
 	}
 	return hex.EncodeToString(a)
+}
+
+// addJunk puts data sets of never-announced template ids in front of some sets of a mixed message (in a quarter of the
+// messages; counts around the 3- and 4-bit marks and a few dozen).
+func addJunk(t *rapid.T, op *c04Op) {
+	if len(op.Sets) == 0 || rapid.IntRange(0, 3).Draw(t, "withjunk") != 0 {
+		return
+	}
+	for k, n := 0, rapid.IntRange(1, 2).Draw(t, "junkplaces"); k < n; k++ {
+		i := rapid.IntRange(0, len(op.Sets)-1).Draw(t, "junkat")
+		op.Sets[i].Junk += rapid.SampledFrom([]int{1, 2, 7, 8, 9, 15, 16, 17, 40}).Draw(t, "njunk")
+	}
 }
 
 func genC04(t *rapid.T, proto string, env *wire.GenEnv, opts ...string) c04Case {
@@ -370,6 +385,7 @@ func genC04(t *rapid.T, proto string, env *wire.GenEnv, opts ...string) c04Case 
 				ds := env.GenDataSet(t, model[j], 3)
 				op.Sets = append(op.Sets, c04MixedSet{Slot: j, Recs: ds.Recs, Pad: ds.Pad})
 			}
+			addJunk(t, &op)
 			c.Ops = append(c.Ops, op)
 		case kind == 8:
 			// one message: data / re-announcement / data ... for the slots of this exporter
@@ -412,6 +428,7 @@ func genC04(t *rapid.T, proto string, env *wire.GenEnv, opts ...string) c04Case 
 					model[j] = local[j]
 				}
 			}
+			addJunk(t, &op)
 			c.Ops = append(c.Ops, op)
 		case cur == nil && kind <= 1:
 			c.Ops = append(c.Ops, c04Op{Op: "unknown", Slot: slot})
@@ -678,11 +695,31 @@ func runC04x(c *c04Case) (v verdict, sig string, err error, cache *flowCache, mo
 		case "mixed":
 			m := hdr()
 			var want []wire.ExpRecord
+			junkSets := 0
 			staleRisk := false
 			seenData := map[int]bool{}
 			for _, ms := range op.Sets {
 				if ms.Slot < 0 || ms.Slot >= len(c.Slots) || string(c.Slots[ms.Slot].Addr) != string(sl.Addr) {
 					return v, "", fmt.Errorf("bad case: mixed set for another exporter"), cache, model
+				}
+				if ms.Junk > 0 {
+					if ms.Junk > 400 {
+						return v, "", fmt.Errorf("bad case: junk"), cache, model
+					}
+					for q := 0; q < ms.Junk; q++ {
+						// an id none of the case's slots uses
+						id := uint16(40000 + (junkSets+q)%20000)
+						for clash := true; clash; {
+							clash = false
+							for _, o := range c.Slots {
+								if o.ID == id {
+									clash, id = true, id+1
+								}
+							}
+						}
+						m.Sets = append(m.Sets, wire.Set{Kind: "raw", RawID: id, RawBody: []byte{byte(q), 2, 3, 4}})
+					}
+					junkSets += ms.Junk
 				}
 				if ms.Tpl != nil {
 					if ms.Tpl.ID != c.Slots[ms.Slot].ID {
@@ -733,8 +770,15 @@ func runC04x(c *c04Case) (v verdict, sig string, err error, cache *flowCache, mo
 			if perr != nil {
 				return v, "panic", step("%v", perr), cache, model
 			}
-			if res.Nil || res.Err != nil {
+			if res.Nil || (res.Err != nil && junkSets == 0) {
 				return v, "mixed-error", step("message mixing announcements and data failed: nil=%v err=%v", res.Nil, res.Err), cache, model
+			}
+			if junkSets > 0 {
+				v.label(true, "mixed-message-with-unknown-template-sets-in-front")
+				v.label(junkSets >= 8, "mixed-message-with->=8-unknown-template-sets")
+				if res.Err == nil {
+					return v, "not-reported", step("%d data sets of never-announced templates in the message, none reported", junkSets), cache, model
+				}
 			}
 			if d := wire.CompareRecords(res.Recs, want); d != "" {
 				return v, "wrong-template", step("a data set was not decoded with the template most recently announced (earlier in the same message or before): %s", d), cache, model
